@@ -646,4 +646,145 @@ theorem lexAll_full (n : Nat) : ∀ (r : Reader) (pos : Nat) (bom : Bom) (d : By
         | end_ b' => simp only [needFrom, hs] at hbig; omega
         | eof a b' => simp only [needFrom, hs] at hbig; omega
 
+/-! ### `needFrom`: independence of the BOM state away from position 0, monotonicity, a bound -/
+
+theorem carryNeed_scan (w : Bytes) (s1 s2 : Bom × Scan) (h : s1.2 = s2.2) : carryNeed w s1 = carryNeed w s2 := by
+  obtain ⟨b1, sc1⟩ := s1; obtain ⟨b2, sc2⟩ := s2
+  simp only at h; subst h
+  cases sc1 <;> simp [carryNeed]
+
+theorem callNeed_false_bom (b1 b2 : Bom) (d : Bytes) : callNeed false b1 d = callNeed false b2 d := by
+  unfold callNeed
+  congr 1
+  funext j
+  rw [carryNeed_scan (d.take j) (fbLoop false (d.take j) .top 0 b1) (fbLoop false (d.take j) .top 0 b2)
+    (fbLoop_false_scan _ _ _ _ _ _ (Nat.le_refl _))]
+
+theorem specStep_false_tok {b1 b' : Bom} (b2 : Bom) {d : Bytes} {adv : Nat} {t : Token}
+    (h : specStep false b1 d = some (.tok adv t b')) : ∃ b'', specStep false b2 d = some (.tok adv t b'') := by
+  have hsc := fbLoop_false_scan d.length d .top 0 b1 b2 (Nat.le_refl _)
+  unfold specStep at h ⊢
+  generalize fbLoop false d .top 0 b1 = r1 at h hsc
+  generalize fbLoop false d .top 0 b2 = r2 at hsc
+  obtain ⟨x1, sc1⟩ := r1; obtain ⟨x2, sc2⟩ := r2
+  simp only at hsc; subst hsc
+  cases sc1 with
+  | bomFill => exact ⟨b', h⟩
+  | tok a t' =>
+    simp only [interp, Option.some.injEq, Step1.tok.injEq] at h ⊢
+    exact ⟨x2, h.1, h.2.1, rfl⟩
+  | refill st carry off =>
+    cases st with
+    | none =>
+      simp only [interp] at h
+      split at h
+      · simp at h
+      · split at h
+        · simp at h
+        · split at h <;> simp at h
+    | quote => simp [interp] at h
+    | unquoted =>
+      simp only [interp, Option.some.injEq, Step1.tok.injEq] at h ⊢
+      exact ⟨x2, h.1, h.2.1, rfl⟩
+
+theorem needFrom_bom (n : Nat) : ∀ (pos : Nat) (b1 b2 : Bom) (d : Bytes), pos ≠ 0 →
+    needFrom n pos b1 d = needFrom n pos b2 d := by
+  induction n with
+  | zero => intro pos b1 b2 d _; rfl
+  | succ n ih =>
+    intro pos b1 b2 d hpos
+    have hp : (pos == 0) = false := by simpa using hpos
+    simp only [needFrom, hp]
+    rw [callNeed_false_bom b1 b2 d]
+    congr 1
+    cases h1 : specStep false b1 d with
+    | none =>
+      cases h2 : specStep false b2 d with
+      | none => rfl
+      | some st2 =>
+        cases st2 with
+        | tok adv t b'' => obtain ⟨_, h⟩ := specStep_false_tok b1 h2; rw [h1] at h; simp at h
+        | end_ _ => rfl
+        | eof _ _ => rfl
+    | some st1 =>
+      cases st1 with
+      | tok adv t b' =>
+        obtain ⟨b'', h2⟩ := specStep_false_tok b2 h1
+        rw [h2]
+        exact ih (pos + adv) b' b'' (d.drop adv) (by omega)
+      | end_ _ =>
+        cases h2 : specStep false b2 d with
+        | none => rfl
+        | some st2 =>
+          cases st2 with
+          | tok adv t b'' => obtain ⟨_, h⟩ := specStep_false_tok b1 h2; rw [h1] at h; simp at h
+          | end_ _ => rfl
+          | eof _ _ => rfl
+      | eof _ _ =>
+        cases h2 : specStep false b2 d with
+        | none => rfl
+        | some st2 =>
+          cases st2 with
+          | tok adv t b'' => obtain ⟨_, h⟩ := specStep_false_tok b1 h2; rw [h1] at h; simp at h
+          | end_ _ => rfl
+          | eof _ _ => rfl
+
+theorem needFrom_mono : ∀ (n n' : Nat) (pos : Nat) (bom : Bom) (d : Bytes), n ≤ n' →
+    needFrom n pos bom d ≤ needFrom n' pos bom d := by
+  intro n
+  induction n with
+  | zero => intro n' pos bom d _; simp [needFrom]
+  | succ n ih =>
+    intro n' pos bom d h
+    obtain ⟨m, rfl⟩ : ∃ m, n' = m + 1 := ⟨n' - 1, by omega⟩
+    simp only [needFrom]
+    cases hs : specStep (pos == 0) bom d with
+    | none => simp
+    | some st =>
+      cases st with
+      | tok adv t b' =>
+        simp only
+        have := ih m (pos + adv) b' (d.drop adv) (by omega)
+        omega
+      | end_ _ => simp
+      | eof _ _ => simp
+
+theorem maxOver_le (f : Nat → Nat) (B : Nat) : ∀ n, (∀ j, j ≤ n → f j ≤ B) → maxOver n f ≤ B := by
+  intro n
+  induction n with
+  | zero => intro h; exact h 0 (Nat.le_refl _)
+  | succ n ih =>
+    intro h
+    simp only [maxOver]
+    exact Nat.max_le.mpr ⟨h _ (Nat.le_refl _), ih (fun j hj => h j (by omega))⟩
+
+theorem callNeed_le (pos0 : Bool) (bom : Bom) (d : Bytes) : callNeed pos0 bom d ≤ d.length + 1 := by
+  unfold callNeed
+  apply maxOver_le
+  intro j hj
+  have h1 := scanNeed_le pos0 bom (d.take j)
+  have h2 := scanNeed_le pos0 .notPresent (d.take j)
+  unfold scanNeed at h1 h2
+  simp only [List.length_take] at h1 h2
+  split <;> omega
+
+theorem needFrom_le (n : Nat) : ∀ (pos : Nat) (bom : Bom) (d : Bytes), needFrom n pos bom d ≤ d.length + 1 := by
+  induction n with
+  | zero => intro pos bom d; simp [needFrom]
+  | succ n ih =>
+    intro pos bom d
+    simp only [needFrom]
+    have h1 := callNeed_le (pos == 0) bom d
+    cases hs : specStep (pos == 0) bom d with
+    | none => simp; omega
+    | some st =>
+      cases st with
+      | tok adv t b' =>
+        simp only
+        have := ih (pos + adv) b' (d.drop adv)
+        simp only [List.length_drop] at this
+        omega
+      | end_ _ => simp; omega
+      | eof _ _ => simp; omega
+
 end Jomini.TextReader
